@@ -20,6 +20,7 @@ type recKeySet struct {
 	brk      []*rgsw.Ciphertext
 	gks      map[uint64]*rlwe.GaloisKey
 	galList  []uint64 // in generation order
+	gkList   []*rlwe.GaloisKey
 	reqBRK   map[int]int
 	reqGal   map[uint64]int
 	missing  []string
@@ -30,6 +31,7 @@ type recKeySet struct {
 
 func newRecKeySet(brk []*rgsw.Ciphertext, gks []*rlwe.GaloisKey) *recKeySet {
 	r := &recKeySet{brk: brk, gks: map[uint64]*rlwe.GaloisKey{}, reqBRK: map[int]int{}, reqGal: map[uint64]int{}}
+	r.gkList = gks
 	for _, gk := range gks {
 		r.gks[gk.GaloisElement] = gk
 		r.galList = append(r.galList, gk.GaloisElement)
